@@ -831,12 +831,44 @@ func (s *Stream) parseFunctionArgs(funcExpr string, data map[string]any) ([]any,
 			} else {
 				args[i] = arg
 			}
+		} else if ref, ok := columnRefName(arg); ok {
+			// A column reference that the row does not carry is NULL; it must not
+			// reach the function as the text of its own name (if_null(x,1) on a
+			// row without x returned "x", lag(v) recorded "v" as a value).
+			// A backtick-quoted name is looked up without its quotes.
+			args[i], _ = lookupRowField(data, ref)
 		} else {
 			args[i] = arg
 		}
 	}
 
 	return args, nil
+}
+
+// columnRefName reports whether arg, which did not resolve against the row as
+// written, is a plain (optionally qualified or backtick-quoted) column reference
+// rather than a keyword-like token such as true/false or '*'. It returns the
+// name to look up, i.e. arg without surrounding backticks.
+func columnRefName(arg string) (string, bool) {
+	if len(arg) > 2 && arg[0] == '`' && arg[len(arg)-1] == '`' {
+		return arg[1 : len(arg)-1], true
+	}
+	switch strings.ToLower(arg) {
+	case "", "true", "false":
+		return "", false
+	}
+	for i := 0; i < len(arg); i++ {
+		c := arg[i]
+		if c == '_' || (c >= 'a' && c <= 'z') || (c >= 'A' && c <= 'Z') {
+			continue
+		}
+		// Digits and dots may continue an identifier but cannot start a segment.
+		if ((c >= '0' && c <= '9') || c == '.') && i > 0 && arg[i-1] != '.' {
+			continue
+		}
+		return "", false
+	}
+	return arg, arg[len(arg)-1] != '.'
 }
 
 // containsExpressionOperator reports whether s contains an arithmetic or
